@@ -15,9 +15,9 @@ pub const OPS: usize = 5;
 
 pub fn plan(tier: &str, seed: u64) -> Vec<Batch> {
     let n = match tier {
-        "thorough" => 200,
+        "thorough" => 600,
         "dev" => 1,
-        _ => 16,
+        _ => 60,
     };
     let mut v = Vec::new();
     for i in 0..n {
